@@ -224,7 +224,7 @@ theorem readWeights_refines_aux {bytes : List Nat}
       · cases hs
       · rename_i hlen
         rw [if_neg (by omega)]
-        cases hrd : Spec.Fse.readDescription (rest.take header) 6 12 with
+        cases hrd : Spec.Fse.readDescription (rest.take header) 6 255 with
         | none => rw [hrd] at hs; cases hs
         | some p =>
         obtain ⟨al, probs, used0⟩ := p
